@@ -134,6 +134,7 @@ type Gen struct {
 	drain       bool
 	drainStep   int
 	chased      bool
+	chase12     int // remaining jumps to the next examination of a stalled long-timeout order
 }
 
 func NewGen(e *Env, prof *Profile) *Gen {
@@ -142,6 +143,9 @@ func NewGen(e *Env, prof *Profile) *Gen {
 	g.quiesce = g.horizon
 	g.regenAt = g.r.Range(g.horizon/5, g.horizon*9/10)
 	g.drain = g.r.Chance(0.2)
+	if NewRng(e.W.Cfg.Seed).Sub("chase12").Chance(0.25) {
+		g.chase12 = 3
+	}
 	g.setup()
 	return g
 }
@@ -287,6 +291,37 @@ func (g *Gen) Next() *Step {
 						return &Step{Idle: int(end) - h}
 					}
 				}
+			}
+		}
+	}
+	// same idea for C12: an order with stalled shards whose next examination lies far ahead (long
+	// timeouts) is followed to that height, a few times per run
+	if g.chase12 > 0 {
+		s := e.Cur
+		ats := make([]uint64, 0, len(s.Sao.Timeouts))
+		for at := range s.Sao.Timeouts {
+			ats = append(ats, at)
+		}
+		sort.Slice(ats, func(i, j int) bool { return ats[i] < ats[j] })
+		for _, at := range ats {
+			if int(at) <= h+60 || at > uint64(h)+5000 {
+				continue
+			}
+			hit := false
+			for _, oid := range s.Sao.Timeouts[at] {
+				if o, ok := s.Order.Orders[oid]; ok && o.Status != ordertypes.OrderPending {
+					if w, _ := hasWaiting(s, o); w > 0 {
+						hit = true
+					}
+				}
+			}
+			if hit {
+				g.chase12--
+				e.probe("chased_examination_of_stalled_long_timeout_order")
+				if g.horizon < int(at)+3 {
+					g.horizon = int(at) + 3
+				}
+				return &Step{Idle: int(at) - h}
 			}
 		}
 	}
@@ -1080,7 +1115,7 @@ func (g *Gen) drawDur() uint64 {
 func (g *Gen) drawTmo() int32 {
 	r := g.r
 	if r.Chance(0.03) {
-		return int32([]int{-1, -1000, 0, 1 << 30, 1800, 4000}[r.Intn(6)])
+		return int32([]int{-1, -1000, 0, 1 << 30, 1800, 4000, 400, 1300}[r.Intn(8)])
 	}
 	return int32(r.Range(1, g.p.TmoMax))
 }
